@@ -46,6 +46,7 @@ class Cfg:
         self.meta = True
         self.shared_field_names = 0.2   # field names reused across unrelated families
         self.setop_under_collect = 0.3  # collect whose right side is a set operator over two fields
+        self.large = False              # the large stratum: many assets, one long inheritance chain, deep expressions
         for k, v in kw.items():
             if not hasattr(self, k):
                 raise TypeError(k)
@@ -73,6 +74,8 @@ class LangGen:
     def generate(self) -> dict:
         rng, cfg = self.rng, self.cfg
         n = rng.randint(1, cfg.max_assets)
+        if cfg.large:
+            n = rng.randint(10, 16)
         names = rng.sample(ASSET_NAMES, n)
         cats = ['Core'] if rng.random() < 0.6 else ['Core', 'Extra']
         assets = []
@@ -80,6 +83,8 @@ class LangGen:
             sup = None
             if i > 0 and rng.random() < cfg.inherit_bias:
                 sup = rng.choice(names[:i])
+            if cfg.large and 0 < i <= 8:
+                sup = names[i - 1]          # one chain of depth 8
             assets.append({
                 'name': nm, 'meta': self._meta(), 'category': rng.choice(cats),
                 'isAbstract': rng.random() < 0.2, 'superAsset': sup,
